@@ -122,6 +122,39 @@ fn zst_calls<N: ArrayLength>(out: &mut dyn Write) {
     writeln!(out, "{{\"ev\":\"zcalls\",\"ty\":\"zst_counted\",\"n\":{},\"calls\":{},\"slice_calls\":{},\"nested_calls\":{}}}", N::USIZE, flat, reference, nest).unwrap();
 }
 
+/// one-byte and eight-byte elements that zeroize to a marker, not to zero bytes (a bulk wipe of the storage is not
+/// the element-wise zeroize the trait promises)
+macro_rules! sentinel {
+    ($name:ident, $t:ty, $def:expr, $wiped:expr) => {
+        #[derive(Clone, PartialEq, Debug)]
+        pub struct $name($t);
+        impl Default for $name {
+            fn default() -> $name {
+                $name($def)
+            }
+        }
+        impl ConstDefault for $name {
+            const DEFAULT: $name = $name($def);
+        }
+        impl Zeroize for $name {
+            fn zeroize(&mut self) {
+                self.0 = $wiped;
+            }
+        }
+        impl Code for $name {
+            fn code(&self) -> i64 {
+                self.0 as i64
+            }
+            fn junk(s: u64) -> $name {
+                $name(((s % 100) + 10) as $t)
+            }
+        }
+    };
+}
+sentinel!(Sent8, u8, 5, 0xA5);
+sentinel!(Sent16, u16, 5, 0xA5A5);
+sentinel!(Sent64, u64, 5, 0xABCDEF);
+
 fn rle<T: Code>(s: &[T]) -> String {
     let mut out: Vec<(i64, usize)> = vec![];
     for x in s {
@@ -179,6 +212,9 @@ pub fn run(tier: &str, seed: u64, out: &mut dyn Write) {
     all_lens!(GenericArray<u8, U2>, "ga_u8_2", seed, out, tier);
     all_lens!(DZ, "dz", seed, out, tier);
     all_lens!(Sent, "sentinel", seed, out, tier);
+    all_lens!(Sent8, "sentinel8", seed, out, tier);
+    all_lens!(Sent16, "sentinel16", seed, out, tier);
+    all_lens!(Sent64, "sentinel64", seed, out, tier);
     macro_rules! zl { ($($n:ident),*) => { $( zst_calls::<$n>(out); )* }; }
     zl!(U0, U1, U2, U3, U4, U5, U6, U7, U8, U9, U15, U16, U17, U31, U32, U33, U64, U97, U1024);
     writeln!(out, "{{\"ev\":\"case_end\"}}").unwrap();
